@@ -84,7 +84,7 @@ def safe(s):
     return re.sub(r'[^A-Za-z0-9_.-]+', '_', s)
 
 
-def check(pid, tier='quick', seed=0):
+def check(pid, tier='quick', seed=0, shared=None, write_evidence=True, quiet=False):
     t0 = time.time()
     known = load_known()
     open_findings = [f for f in known.get('findings', []) if f['property'] == pid and f.get('status', 'open') == 'open']
@@ -105,7 +105,9 @@ def check(pid, tier='quick', seed=0):
     if not targets and not inconclusive:
         inconclusive.append(f'no world carries an obligation labelled {pid}')
     results = []
-    if not inconclusive:
+    if shared is not None:
+        results = [shared[(t[0], t[1])] for t in targets if (t[0], t[1]) in shared]
+    elif not inconclusive:
         nthreads = max(2, 16 // max(1, len(targets)))
         extra = []
         if tier == 'thorough':
@@ -318,7 +320,8 @@ def check(pid, tier='quick', seed=0):
         # not a proof-level result: say so
         evidence['level'] = 'other'
         evidence['coverage']['explanation'] = 'inconclusive run: ' + '; '.join(inconclusive)[:2000] if inconclusive else 'no obligations'
-    json.dump(evidence, open(os.path.join(ev_dir, f'{pid}.json'), 'w'), indent=1)
+    if write_evidence:
+        json.dump(evidence, open(os.path.join(ev_dir, f'{pid}.json'), 'w'), indent=1)
     for l in lines:
         print(l)
     print(f'{pid}: {n_dis}/{n_ob} obligations discharged, {len(functions)} functions, twins {twins}, {wall:.1f}s, exit {rc}')
@@ -336,7 +339,31 @@ ASSUMPTIONS = [
 ]
 
 
+def check_all(pids, tier='quick', seed=0):
+    """one Verus run per world, then every property's verdict from the shared results"""
+    shared = {}
+    worlds = all_worlds()
+    def go(t):
+        try:
+            return (t[0], t[1]), run_world(t[0], t[1], threads=4)
+        except Inconclusive as e:
+            return (t[0], t[1]), {'inconclusive': str(e), 'world': t[0]}
+    with ThreadPoolExecutor(len(worlds)) as ex:
+        for k, v in ex.map(go, worlds):
+            shared[k] = v
+    out = {}
+    for pid in pids:
+        out[pid] = check(pid, tier, seed, shared=shared, write_evidence=False)
+    return out
+
+
 def main(argv):
+    if len(argv) >= 2 and argv[1] == '--all':
+        from .manifest_table import CLAIMED  # noqa
+        from . import manifest
+        res = check_all(sorted(manifest.CLAIMED))
+        print('SUMMARY ' + ' '.join(f'{k}={v}' for k, v in res.items()))
+        return 1 if any(v == 1 for v in res.values()) else (2 if any(v == 2 for v in res.values()) else 0)
     if len(argv) >= 2 and argv[1] == 'replay':
         from .replay import run_replay
         return run_replay(argv[2])
@@ -352,4 +379,14 @@ def main(argv):
 
 
 if __name__ == '__main__':
-    sys.exit(main(sys.argv))
+    try:
+        rc = main(sys.argv)
+    except Inconclusive as e:
+        print(f'INCONCLUSIVE: {e}')
+        rc = 2
+    except Exception as e:   # a crash of the machinery is never a verdict
+        import traceback
+        traceback.print_exc()
+        print(f'INCONCLUSIVE: internal error in the checker: {e!r}')
+        rc = 2
+    sys.exit(rc)
